@@ -1,6 +1,7 @@
 package main
 
 import (
+	"go/types"
 	"go/token"
 	"sort"
 	"strings"
@@ -67,6 +68,32 @@ func runC20(c *Ctx) {
 		} else {
 			legacyUnesc = &cs
 		}
+	}
+	// what gets unescaped is the component's string form (as the transcoder escaped it): the per-protocol table is
+	// filled from ValueForProtocol / Component.Value, not from the raw (already unescaped) bytes
+	{
+		nFill, rawAt := 0, token.NoPos
+		c.WalkInl(to.SSA, 2, func(ev InlEvent) {
+			mu, ok := ev.In.(*ssa.MapUpdate)
+			if !ok {
+				return
+			}
+			mt, ok := mu.Map.Type().Underlying().(*types.Map)
+			if !ok {
+				return
+			}
+			if b, ok := mt.Elem().Underlying().(*types.Basic); !ok || b.Kind() != types.String {
+				return
+			}
+			nFill++
+			v := c.E(mu.Value)
+			_, a := Match(Extract("0", AnyCall("ValueForProtocol")), v)
+			_, b := Match(AnyCall("Component).Value"), v)
+			if !a && !b {
+				rawAt = mu.Pos()
+			}
+		})
+		c.Check(nFill > 0 && !rawAt.IsValid(), "C20.X1-escape-inverse", to.Name+" › component values in string form", to.SSA.Pos(), "the per-protocol values are the components' string values", "a component value is taken in another form than its string value (at "+c.pos(rawAt)+", e.g. RawValue): the path is then unescaped twice, so '+' and '%' in a path do not survive the round trip")
 	}
 	if httpPathUnesc == nil {
 		c.Bad("C20.X1-escape-inverse", to.Name+" › http-path value", to.SSA.Pos(), "ToURL does not unescape the http-path component")
@@ -138,7 +165,8 @@ func runC20(c *Ctx) {
 		}
 	})
 	c.Check(filled["Scheme"] && filled["Host"] && filled["Path"], "C20.X2-fields-covered", to.Name+" › result fields", to.SSA.Pos(), "ToURL sets Scheme, Host and Path of the result", "ToURL leaves scheme, host or path unset")
-	okDial := len(c.Calls(to.SSA, Call("go-multiaddr/net.DialArgs", Op("param", to.SSA.Params[0].Name())))) == 1
+	// (directly, or in a preparation helper handed the multiaddr)
+	okDial := len(c.CallsInl(to.SSA, Call("go-multiaddr/net.DialArgs", Op("param", to.SSA.Params[0].Name())), 2)) == 1
 	c.Check(okDial, "C20.X2-fields-covered", to.Name+" › host:port from the multiaddr", to.SSA.Pos(), "host:port come from manet.DialArgs(ma)", "host:port are not taken from the multiaddr's dial arguments")
 	c.Floor("C20.X2-fields-covered", 6)
 
